@@ -320,9 +320,14 @@ pub fn check_failure(b: &Bound, which: &str) -> Option<String> {
     std::fs::write(&m, b.bn.to_string()).ok()?;
     std::fs::write(&f, "EF a\n").ok()?;
     let e = dir.path().join("ctx.zip");
-    let g1 = get_extended_symbolic_graph(&b.bn, 1).ok()?;
+    let g1 = match get_extended_symbolic_graph(&b.bn, 1) {
+        Ok(g) => g,
+        Err(e) => return Some(format!("{which}: cannot build the graph for the context archive: {e}")),
+    };
     let unit: Vec<Mask> = vec![full_mask(b.n); b.cols.len()];
-    build_result_archive(HashMap::from([("p".to_string(), b.mk_set_in(&g1, &unit))]), e.to_str().unwrap(), b.bn.to_string().as_str(), vec![]).ok()?;
+    if let Err(err) = build_result_archive(HashMap::from([("p".to_string(), b.mk_set_in(&g1, &unit))]), e.to_str().unwrap(), b.bn.to_string().as_str(), vec![]) {
+        return Some(format!("{which}: cannot write the context archive: {err}"));
+    }
     let (ms, fs, es) = (m.to_str().unwrap().to_string(), f.to_str().unwrap().to_string(), e.to_str().unwrap().to_string());
     let missing = dir.path().join("nope.aeon").to_str().unwrap().to_string();
     let mut expected_formulae: Option<usize> = None;
@@ -401,7 +406,10 @@ pub fn check_failure(b: &Bound, which: &str) -> Option<String> {
         _ => return None,
     };
     let argv: Vec<&str> = args.iter().map(|s| s.as_str()).collect();
-    let out = cli::run(&cli::checker_bin(), &argv, None, 60.0).ok()?;
+    let out = match cli::run(&cli::checker_bin(), &argv, None, 60.0) {
+        Ok(o) => o,
+        Err(e) => return Some(format!("{which}: the tool cannot be executed: {e}")),
+    };
     if out.timed_out {
         return Some(format!("{which}: the tool hangs"));
     }
